@@ -295,3 +295,50 @@ def case(ctx, case):
             others = [x for x in good if x != b]
             run("copy_among_strangers", [others[0], b, b] + others[1:3])
     ctx.sample(dict(case=case, solo_reward=[None if r is None else r["r"].tolist() for r in refs][:3]))
+
+
+def chunk_case(ctx, case):
+    """evaluate_policy over one dataset with several data-loader batch sizes: per instance, the reported reward and the returned
+    solution must not depend on how the dataset was chunked (last partial chunks, single-instance chunks included)."""
+    from rl4co.tasks.eval import evaluate_policy
+
+    kind, name, n, N, seed = case["policy"], case["env"], case["n"], case["N"], case["s"]
+    env, O, cfg = policies.env_for(name, n, **case.get("extra", {}))
+    pol = policies.make(kind, env, seed=case.get("wseed", 0))
+    torch.manual_seed(seed)
+    td_all = env.generator(batch_size=[N])
+    sig = dict(policy=kind, env=name, context="evaluate_policy_chunking", method=case["method"])
+    res = {}
+    for bs in case["bss"]:
+        ds = env.dataset_cls(td_all.clone())
+        torch.manual_seed(seed + 1)
+        try:
+            r = evaluate_policy(env, pol, ds, method=case["method"], batch_size=bs, auto_batch_size=False, num_augment=case.get("A", 8), force_dihedral_8=("dihedral" in case["method"]), **(dict(num_starts=case["starts"]) if "multistart" in case["method"] else {}))
+        except Exception as e:
+            ctx.evaluation()
+            ctx.violation(dict(sig, q="batch_raises", exc=type(e).__name__), f"evaluate_policy with batch_size={bs} raised {type(e).__name__}: {str(e)[:200]}", dict(N=N, bs=bs))
+            return
+        res[bs] = (r["rewards"].clone(), r["actions"].clone())
+        ctx.count("c14_eval_chunkings")
+    ref_bs = case["bss"][0]
+    r0, a0 = res[ref_bs]
+    for bs, (r, a) in res.items():
+        if bs == ref_bs:
+            continue
+        for i in range(N):
+            ctx.evaluation()
+            ctx.count("c14_comparisons")
+            ctx.count("c14_ctx_evaluate_policy_chunking")
+            L = min(a.shape[1], a0.shape[1])
+            x, y = a[i], a0[i]
+            same = torch.equal(x[:L], y[:L]) and bool((x[L:] == (x[L - 1] if L else 0)).all() | (x[L:] == 0).all()) and bool((y[L:] == (y[L - 1] if L else 0)).all() | (y[L:] == 0).all())
+            if not same or abs(float(r[i]) - float(r0[i])) > 1e-4 * max(1.0, abs(float(r0[i]))):
+                # float-level near ties may flip a greedy choice between chunkings: decide by the objective of each returned solution
+                ok_pair = all(abs(O.objective(O.extract(td_all, env.reset(td_all.clone()), i, env), [int(v) for v in acts.tolist()]) - float(rew[i])) <= 1e-4 * max(1.0, abs(float(rew[i]))) for acts, rew in ((x, r), (y, r0))) if O is not None else True
+                if ok_pair and not same:
+                    ctx.ambiguous += 1  # both chunkings return a correctly scored solution: a tie flip, not a mis-pairing
+                    continue
+                ctx.violation(dict(sig, q="actions" if not same else "reward"), f"instance {i}: evaluate_policy with batch_size={bs} returns reward {float(r[i])} / actions {x.tolist()[:12]}, with batch_size={ref_bs} reward {float(r0[i])} / actions {y.tolist()[:12]}",
+                              dict(N=N, bs=bs, ref_bs=ref_bs))
+                return
+            ctx.nontrivial_case(dict(p=kind, e=name, a=y.tolist(), c="chunk", bs=bs, i=i))
